@@ -176,6 +176,14 @@ func (c *Ctx) stdOpaque(extra ...*ssa.Function) func(*ssa.Function) bool {
 			set[e] = true
 		}
 	}
+	// anything that writes the import / hint tables is an effect of its own, never unfolded
+	for _, fld := range []string{c.ff("imports"), c.ff("hints")} {
+		for _, w := range c.fileFieldWrites(fld) {
+			if w.kind == "mapupdate" || w.kind == "delete" || w.kind == "clear" {
+				set[w.fn] = true
+			}
+		}
+	}
 	return func(f *ssa.Function) bool { return set[f] }
 }
 
@@ -1051,5 +1059,271 @@ func rulePXRenderItems(c *Ctx) []Obligation {
 		return o.list
 	}
 	c.checkListPaths(o, f, listSpec{list: "recv.items", sepTerm: "recv.separator", multiAtom: "recv.multi", register: true, dictGuard: true, boolResult: true})
+	return o.list
+}
+
+
+// ---------------------------------------------------------------------------------------------
+// P-ISNULL
+
+// boolOutcomes expands a path returning a boolean into (facts, value) outcomes: a constant result
+// is one outcome; a result that is a single literal contributes the two outcomes of that literal.
+func boolOutcomes(p *PXPath) (out []struct {
+	F   Facts
+	Val bool
+}, ok bool) {
+	if len(p.Ret) != 1 {
+		return nil, false
+	}
+	r := p.Ret[0]
+	if b, isC := r.boolVal(); isC {
+		return append(out, struct {
+			F   Facts
+			Val bool
+		}{p.Facts, b}), true
+	}
+	for _, pol := range []bool{true, false} {
+		ls := termLits(r, pol)
+		if len(ls) == 0 {
+			return nil, false
+		}
+		f := Facts{}
+		for k, v := range p.Facts {
+			f[k] = v
+		}
+		feasible := true
+		for _, l := range ls {
+			if old, has := f[l.Atom]; has && old != l.Pol {
+				feasible = false
+			}
+			f[l.Atom] = l.Pol
+		}
+		if len(ls) > 1 && !pol {
+			// the negation of a conjunction is not a set of literals: keep only the atom itself
+			f = Facts{}
+			for k, v := range p.Facts {
+				f[k] = v
+			}
+			f[r.String()] = false
+		}
+		if feasible {
+			out = append(out, struct {
+				F   Facts
+				Val bool
+			}{f, pol})
+		}
+	}
+	return out, true
+}
+
+func eqAtom(a, b string) string { return "eq(" + min2(a, b) + "," + max2(a, b) + ")" }
+
+func rulePXIsNull(c *Ctx) []Obligation {
+	o := c.newObs("P-ISNULL")
+	nullItems := c.role("isNullItems")
+	// ---- Group.isNull
+	if f := c.method("Group", c.nullName()); f != nil && nullItems != nil {
+		fn := fname(f)
+		paths, trunc := c.Paths(f, PXConfig{Opaque: c.stdOpaque(nullItems)})
+		t := newTally(o, fn, f.Pos())
+		if trunc || len(paths) == 0 {
+			o.undecided(fn, "path enumeration", f.Pos(), "%d paths", len(paths))
+		}
+		for _, p := range paths {
+			if p.End != "return" || len(p.Ret) != 1 {
+				t.note("the null test returns a boolean on every path", false, "path %s ends in %s", traceOf(p), p.End)
+				continue
+			}
+			F := p.Facts
+			r := p.Ret[0]
+			delim := F.Has("empty(recv.open)", false) || F.Has("empty(recv.close)", false)
+			noDelim := F.Has("empty(recv.open)", true) && F.Has("empty(recv.close)", true)
+			if b, isC := r.boolVal(); isC {
+				if b {
+					t.note("a group is null outright only if it is nil", F.Has("eq(nil,recv)", true), "path %s returns true with facts %s", traceOf(p), F)
+				} else {
+					t.note("a group is non-null outright only if it has a delimiter", F.Has("eq(nil,recv)", false) && delim, "path %s returns false with facts %s", traceOf(p), F)
+				}
+				continue
+			}
+			isItems := r.Op == "call" && r.Aux == fname(nullItems) && len(r.A) == 2 && r.A[0].String() == "recv" && r.A[1].String() == "p0"
+			t.note("a delimiter-less group is null exactly if all its items are", isItems && F.Has("eq(nil,recv)", false) && noDelim, "path %s returns %s with facts %s", traceOf(p), r, F)
+		}
+		t.require("a group is null outright only if it is nil", "a group is non-null outright only if it has a delimiter", "a delimiter-less group is null exactly if all its items are")
+		t.flush()
+	} else {
+		o.undecided("(*jen.Group).isNull", "anchor", token.NoPos, "anchor lost: Group's null test or its items helper")
+	}
+	// ---- conjunction loops
+	for _, lf := range []struct {
+		f    *ssa.Function
+		list string
+		nilR bool
+	}{{nullItems, "recv.items", false}, {c.method("Statement", c.nullName()), "recv", true}} {
+		f := lf.f
+		if f == nil {
+			continue
+		}
+		fn := fname(f)
+		paths, trunc := c.Paths(f, PXConfig{Opaque: c.stdOpaque(), MaxVisits: 4})
+		if trunc || len(paths) == 0 {
+			o.undecided(fn, "path enumeration", f.Pos(), "%d paths", len(paths))
+			continue
+		}
+		t := newTally(o, fn, f.Pos())
+		for _, p := range paths {
+			if p.End != "return" {
+				t.note("the null test does not panic", false, "path %s panics", traceOf(p))
+				continue
+			}
+			b, isC := p.Ret[0].boolVal()
+			if !isC {
+				t.note("the result is decided on every path", false, "path %s returns %s", traceOf(p), p.Ret[0])
+				continue
+			}
+			F := p.Facts
+			if lf.nilR && F.Has("eq(nil,recv)", true) {
+				t.note("a nil statement is null", b, "path %s returns false for a nil receiver", traceOf(p))
+				continue
+			}
+			// statuses of the items examined
+			n := 0
+			lastLive, allSkipped := false, true
+			for k := 0; k < 4; k++ {
+				it := fmt.Sprintf("%s[%d]", lf.list, k)
+				seen := false
+				for atom := range F {
+					if strings.Contains(atom, it) {
+						seen = true
+					}
+				}
+				if !seen {
+					break
+				}
+				n = k + 1
+				nil3 := fact3(F, eqAtom("nil", it))
+				null3 := [2]bool{}
+				for _, e := range p.Events {
+					if e.Kind == "invoke" && e.Name == c.nullName() && e.Recv.String() == it {
+						null3 = fact3(F, e.Res.String())
+					}
+				}
+				live := nil3[1] && !nil3[0] && null3[1] && !null3[0]
+				skipped := (nil3[1] && nil3[0]) || (null3[1] && null3[0])
+				lastLive = live
+				if !skipped {
+					allSkipped = false
+				}
+			}
+			exhausted := F.Has(fmt.Sprintf("lt(%d,len(%s))", n, lf.list), false)
+			if n == 0 {
+				exhausted = F.Has("empty("+lf.list+")", true)
+			}
+			if b {
+				t.note("null only if every item is nil or null (all items examined)", allSkipped && exhausted, "path %s returns true after %d items (all nil/null: %v, list exhausted: %v; facts %s)", traceOf(p), n, allSkipped, exhausted, F)
+			} else {
+				t.note("non-null only if an item is neither nil nor null", n > 0 && lastLive, "path %s returns false (facts %s)", traceOf(p), F)
+			}
+		}
+		t.require("null only if every item is nil or null (all items examined)", "non-null only if an item is neither nil nor null")
+		t.flush()
+		c.checkArityIndependence(o, f)
+	}
+	// ---- token.isNull
+	if f := c.implOf(c.nullName(), "jen.token"); f != nil {
+		fn := fname(f)
+		paths, trunc := c.Paths(f, PXConfig{Opaque: c.stdOpaque()})
+		if trunc || len(paths) == 0 {
+			o.undecided(fn, "path enumeration", f.Pos(), "%d paths", len(paths))
+		}
+		t := newTally(o, fn, f.Pos())
+		pkgAtom := `eq("` + c.tokenTypeConst("packageToken") + `",recv.typ)`
+		nullAtom := `eq("` + c.tokenTypeConst("nullToken") + `",recv.typ)`
+		path := "assert<string>(recv.content)"
+		hint := "p0." + c.ff("hints") + "[" + path + "]"
+		for _, p := range paths {
+			if p.End != "return" {
+				continue // a failed assertion: T-TOKCONTENT
+			}
+			for _, e := range p.Events {
+				if e.Kind != "panic" {
+					t.note("the null test of a token has no effect", false, "path %s: %s %s", traceOf(p), e.Kind, e.Name)
+				}
+			}
+			outs, ok := boolOutcomes(p)
+			if !ok {
+				t.note("the result is decided on every path", false, "path %s returns %v", traceOf(p), p.Ret)
+				continue
+			}
+			for _, oc := range outs {
+				F := oc.F
+				pk := fact3(F, pkgAtom)
+				if !pk[1] {
+					// a non-package result may be decided by the token type test alone
+					nk := fact3(F, nullAtom)
+					if nk[1] && nk[0] {
+						pk = [2]bool{false, true}
+					} else {
+						t.note("every path distinguishes package tokens from the others", false, "path %s returns %v without knowing whether the token is a package token (facts %s)", traceOf(p), oc.Val, F)
+						continue
+					}
+				}
+				if pk[0] {
+					dotT, dk := and3(not3(not3(fact3(F, `eq(".",`+hint+`.`+c.ff("defname")+`)`))), fact3(F, hint+"."+c.ff("defalias")))
+					if hf := fact3(F, "has(p0."+c.ff("hints")+","+path+")"); hf[1] && !hf[0] {
+						dotT, dk = false, true
+					}
+					loc := fact3(F, eqAtom("p0."+c.ff("path"), path))
+					var want, known bool
+					switch {
+					case (dk && dotT) || (loc[1] && loc[0]):
+						want, known = true, true
+					case dk && !dotT && loc[1] && !loc[0]:
+						want, known = false, true
+					}
+					t.note("a package token is null exactly for a dot-imported path or the File's own path", known && want == oc.Val, "path %s returns %v (dot-import known %v=%v, local %v; facts %s)", traceOf(p), oc.Val, dk, dotT, loc, F)
+				} else {
+					nk := fact3(F, nullAtom)
+					t.note("any other token is null exactly if it is the null token", nk[1] && nk[0] == oc.Val, "path %s returns %v (facts %s)", traceOf(p), oc.Val, F)
+				}
+			}
+		}
+		t.require("a package token is null exactly for a dot-imported path or the File's own path", "any other token is null exactly if it is the null token")
+		t.flush()
+	} else {
+		o.undecided("(jen.token).isNull", "anchor", token.NoPos, "anchor lost")
+	}
+	// ---- tag, comment
+	if f := c.implOf(c.nullName(), "jen.tag"); f != nil {
+		paths, _ := c.Paths(f, PXConfig{Opaque: c.stdOpaque()})
+		t := newTally(o, fname(f), f.Pos())
+		for _, p := range paths {
+			outs, ok := boolOutcomes(p)
+			if !ok || p.End != "return" {
+				t.note("a tag is null exactly if it has no items", false, "path %s returns %v", traceOf(p), p.Ret)
+				continue
+			}
+			for _, oc := range outs {
+				e := fact3(oc.F, "empty(recv.items)")
+				t.note("a tag is null exactly if it has no items", e[1] && e[0] == oc.Val, "path %s returns %v (facts %s)", traceOf(p), oc.Val, oc.F)
+			}
+		}
+		t.require("a tag is null exactly if it has no items")
+		t.flush()
+	}
+	if f := c.implOf(c.nullName(), "jen.comment"); f != nil {
+		paths, _ := c.Paths(f, PXConfig{Opaque: c.stdOpaque()})
+		t := newTally(o, fname(f), f.Pos())
+		for _, p := range paths {
+			b, isC := false, false
+			if len(p.Ret) == 1 {
+				b, isC = p.Ret[0].boolVal()
+			}
+			t.note("a comment is never null", isC && !b, "path %s returns %v", traceOf(p), p.Ret)
+		}
+		t.require("a comment is never null")
+		t.flush()
+	}
+	// ---- Null() / Empty(): checked with the other constructors (P-LITCTOR)
 	return o.list
 }
